@@ -624,6 +624,23 @@ func ruleTimeParams(r *Run) {
 			bad = true
 			ot.Fail(r.pos(pts.Pos()), "the textual fallback is not time.RFC3339Nano")
 		}
+		// a value that does not fit a numeric syntax falls through to the next one: the only
+		// error parseTimestamp reports is that of the last resort (time.Parse)
+		for _, ret := range returnsOf(pts) {
+			if len(ret.Results) != 2 {
+				continue
+			}
+			for _, lv := range phiLeaves(ret.Results[1]) {
+				if isNilConst(lv) {
+					continue
+				}
+				if c, idx, ok := extractOf(lv); ok && idx == 1 && callIs(c, "time", "Parse") {
+					continue
+				}
+				bad = true
+				ot.Fail(r.pos(ret.Pos()), "parseTimestamp fails with %s: a spelling that does not fit one numeric syntax is rejected instead of being tried as the next one (RFC3339Nano timestamps contain '.' and letters)", describe(lv, 0))
+			}
+		}
 		emptyOK := false
 		for _, ret := range returnsOf(pts) {
 			if ret.Results[0] == ssa.Value(pts.Params[1]) && isNilConst(ret.Results[1]) {
